@@ -22,6 +22,7 @@ import (
 	"github.com/aperturerobotics/bifrost/util/rwc"
 	pbl "github.com/aperturerobotics/protobuf-go-lite"
 
+	"verif/harness/hdrgen"
 	"verif/harness/lib"
 )
 
@@ -147,22 +148,7 @@ func coarse(s string) string {
 
 // ---- C07 ----
 
-func (e *engine) validUTF8(n int) []byte {
-	var out []byte
-	for len(out) < n {
-		switch e.rng.Intn(6) {
-		case 0:
-			out = utf8.AppendRune(out, rune(0x80+e.rng.Intn(0x700)))
-		case 1:
-			out = utf8.AppendRune(out, rune(0x800+e.rng.Intn(0x5000)))
-		case 2:
-			out = utf8.AppendRune(out, rune(0x10000+e.rng.Intn(0xFFFFF)))
-		default:
-			out = append(out, byte(0x20+e.rng.Intn(0x5f)))
-		}
-	}
-	return out
-}
+func (e *engine) validUTF8(n int) []byte { return hdrgen.ValidUTF8(e.rng, n) }
 
 func (e *engine) hdrCase(stream []byte, chunks [][]byte, expect string, wantPid, wantRest []byte, gen string) {
 	max := transport_controller.VerifStreamEstablishMaxPacketSize()
@@ -287,103 +273,8 @@ func (e *engine) runC07() {
 	// malformed
 	nBad := 160 * e.a.Scale
 	for i := 0; i < nBad; i++ {
-		var stream []byte
-		gen := ""
-		expect := "reject"
-		var wantPid, wantRest []byte
-		switch i % 16 {
-		case 0:
-			gen = "zero-len"
-			stream = append([]byte{0}, e.rng.Bytes(6)...)
-		case 1:
-			gen = "oversize"
-			stream = pbl.AppendVarint(nil, uint64(max+1+e.rng.Intn(1000)))
-			stream = append(stream, e.rng.Bytes(40)...)
-		case 2:
-			gen = "bad-varint"
-			stream = []byte{0x80 | byte(e.rng.Intn(128)), 0x80 | byte(e.rng.Intn(128)), 0x80 | byte(e.rng.Intn(128)), 0x80 | byte(e.rng.Intn(128)), 1, 2, 3}
-		case 3:
-			gen = "truncated"
-			pid := e.validUTF8(1 + e.rng.Intn(40))
-			h := transport_controller.VerifMarshalStreamEstablishHeader(transport_controller.NewStreamEstablish(protocol.ID(pid)))
-			stream = h[:e.rng.Intn(len(h))]
-		case 4:
-			gen = "empty-pid"
-			stream = append([]byte{2, 0x0a, 0}, e.rng.Bytes(3)...)
-		case 5:
-			gen = "non-utf8-pid"
-			bad := [][]byte{{0xff}, {0xc0, 0x80}, {0xed, 0xa0, 0x80}, {0xf4, 0x90, 0x80, 0x80}, {0xe0, 0x80, 0x80}, {0xc2}, {0x61, 0x80}, {0xf0, 0x80, 0x80, 0x80}, {0xf5, 0x80, 0x80, 0x80}}
-			pid := append(e.validUTF8(e.rng.Intn(5)), bad[e.rng.Intn(len(bad))]...)
-			body := append([]byte{0x0a, byte(len(pid))}, pid...)
-			stream = append(pbl.AppendVarint(nil, uint64(len(body))), body...)
-			stream = append(stream, e.rng.Bytes(3)...)
-		case 6:
-			gen = "wrong-wire"
-			body := []byte{0x08, 0x05}
-			stream = append([]byte{byte(len(body))}, body...)
-			stream = append(stream, 1, 2, 3)
-		case 7:
-			gen = "random-body"
-			body := e.rng.Bytes(1 + e.rng.Intn(20))
-			stream = append(pbl.AppendVarint(nil, uint64(len(body))), body...)
-			stream = append(stream, e.rng.Bytes(4)...)
-			expect = "any"
-		case 8:
-			gen = "unknown-fields"
-			pid := e.validUTF8(1 + e.rng.Intn(10))
-			body := []byte{0x10, 0x07} // field 2 varint
-			body = append(body, 0x0a, byte(len(pid)))
-			body = append(body, pid...)
-			body = append(body, 0x1a, 0x02, 0xaa, 0xbb) // field 3 bytes
-			rest := e.rng.Bytes(e.rng.Intn(5))
-			stream = append(pbl.AppendVarint(nil, uint64(len(body))), body...)
-			stream = append(stream, rest...)
-			expect, wantPid, wantRest = "ok", pid, rest
-		case 9:
-			gen = "duplicate-pid"
-			p1 := e.validUTF8(1 + e.rng.Intn(6))
-			p2 := e.validUTF8(1 + e.rng.Intn(6))
-			body := append([]byte{0x0a, byte(len(p1))}, p1...)
-			body = append(body, 0x0a, byte(len(p2)))
-			body = append(body, p2...)
-			rest := e.rng.Bytes(e.rng.Intn(5))
-			stream = append(pbl.AppendVarint(nil, uint64(len(body))), body...)
-			stream = append(stream, rest...)
-			expect, wantPid, wantRest = "any", p2, rest
-		case 10:
-			gen = "nonminimal-prefix"
-			pid := e.validUTF8(1 + e.rng.Intn(10))
-			body := append([]byte{0x0a, byte(len(pid))}, pid...)
-			stream = append([]byte{0x80 | byte(len(body)), 0x00}, body...)
-			rest := e.rng.Bytes(e.rng.Intn(5))
-			stream = append(stream, rest...)
-			expect, wantPid, wantRest = "any", pid, rest
-		case 11:
-			gen = "short-header-len1"
-			stream = append([]byte{1}, e.rng.Bytes(5)...)
-			expect = "any"
-		case 12:
-			gen = "short-header-len2"
-			stream = append([]byte{2}, e.rng.Bytes(5)...)
-			expect = "any"
-		case 13:
-			gen = "group-unknown"
-			pid := e.validUTF8(2)
-			body := []byte{0x13, 0x08, 0x01, 0x14} // start group 2, field1 varint, end group 2
-			body = append(body, 0x0a, byte(len(pid)))
-			body = append(body, pid...)
-			stream = append([]byte{byte(len(body))}, body...)
-			expect, wantPid, wantRest = "any", pid, nil
-		case 14:
-			gen = "len-lies-body"
-			pid := e.validUTF8(4)
-			body := append([]byte{0x0a, byte(len(pid) + 3)}, pid...)
-			stream = append([]byte{byte(len(body))}, body...)
-			stream = append(stream, 9, 9, 9, 9)
-		case 15:
-			gen = "empty-stream"
-			stream = e.rng.Bytes(e.rng.Intn(4))
-		}
+		mc := hdrgen.Malformed(e.rng, i, max)
+		stream, gen, expect, wantPid, wantRest := mc.Stream, mc.Gen, mc.Expect, mc.WantPid, mc.WantRest
 		chunks := e.rng.Chunk(stream, e.rng.Intn(4))
 		e.hdrCase(stream, chunks, expect, wantPid, wantRest, gen)
 	}
